@@ -1,0 +1,198 @@
+//go:build verif
+
+/*
+ * Atree - Scalable Arrays and Ordered Maps
+ *
+ * Copyright Flow Foundation
+ *
+ * Licensed under the Apache License, Version 2.0 (the "License");
+ * you may not use this file except in compliance with the License.
+ * You may obtain a copy of the License at
+ *
+ *   http://www.apache.org/licenses/LICENSE-2.0
+ *
+ * Unless required by applicable law or agreed to in writing, software
+ * distributed under the License is distributed on an "AS IS" BASIS,
+ * WITHOUT WARRANTIES OR CONDITIONS OF ANY KIND, either express or implied.
+ * See the License for the specific language governing permissions and
+ * limitations under the License.
+ */
+
+package atree
+
+import "fmt"
+
+// Verification hooks for the element level of OrderedMap. This file only exists for the
+// compiler when the build tag "verif" is set. It adds a read-only structural dump of a
+// map's elements; it does not change any existing declaration.
+
+// VerifMapElems is a copy of one `elements` value (hkeyElements or singleElements).
+type VerifMapElems struct {
+	IsHkey bool     // true: hkeyElements, false: singleElements
+	Level  uint     // cached level
+	Hkeys  []Digest // hkeyElements only
+	Size   uint32   // cached elements.Size()
+	Elems  []VerifMapElem
+}
+
+// VerifMapElem is a copy of one `element`.
+type VerifMapElem struct {
+	Kind   int // 0 single, 1 inline group, 2 external group
+	Key    Storable
+	Value  Storable
+	Size   uint32         // element.Size()
+	SlabID SlabID         // kind 2
+	Group  *VerifMapElems // kind 1, 2
+}
+
+// verifMapDataSlabs returns all data slabs of the map from left to right (walking the index
+// slabs from the root) and cross-checks the sibling links against that order.
+func verifMapDataSlabs(m *OrderedMap) ([]*MapDataSlab, error) {
+	var slabs []*MapDataSlab
+	var walk func(s MapSlab, depth int) error
+	walk = func(s MapSlab, depth int) error {
+		if depth > 64 {
+			return fmt.Errorf("verif: map slab tree deeper than 64")
+		}
+		switch x := s.(type) {
+		case *MapDataSlab:
+			slabs = append(slabs, x)
+			return nil
+		case *MapMetaDataSlab:
+			for _, h := range x.childrenHeaders {
+				child, err := getMapSlab(m.Storage, h.slabID)
+				if err != nil {
+					return err
+				}
+				if err := walk(child, depth+1); err != nil {
+					return err
+				}
+			}
+			return nil
+		default:
+			return fmt.Errorf("verif: unexpected map slab type %T", s)
+		}
+	}
+	if err := walk(m.root, 0); err != nil {
+		return nil, err
+	}
+	for i, s := range slabs {
+		want := SlabIDUndefined
+		if i+1 < len(slabs) {
+			want = slabs[i+1].header.slabID
+		}
+		if s.next != want {
+			return nil, fmt.Errorf("verif: data slab %s has next %s, want %s", s.header.slabID, s.next, want)
+		}
+	}
+	return slabs, nil
+}
+
+// VerifMapDataSlabCount returns the number of level-0 data slabs of the map.
+func VerifMapDataSlabCount(m *OrderedMap) (int, error) {
+	slabs, err := verifMapDataSlabs(m)
+	return len(slabs), err
+}
+
+// VerifMapElements returns the map's element structure with the level-0 hkeyElements of all
+// data slabs merged (left to right) into one logical hkeyElements.
+func VerifMapElements(m *OrderedMap) (*VerifMapElems, error) {
+	slabs, err := verifMapDataSlabs(m)
+	if err != nil {
+		return nil, err
+	}
+	out := &VerifMapElems{IsHkey: true, Level: 0, Size: hkeyElementsPrefixSize}
+	for _, s := range slabs {
+		he, ok := s.elements.(*hkeyElements)
+		if !ok {
+			return nil, fmt.Errorf("verif: data slab %s holds %T, want *hkeyElements", s.header.slabID, s.elements)
+		}
+		if he.level != 0 {
+			return nil, fmt.Errorf("verif: data slab %s elements have level %d, want 0", s.header.slabID, he.level)
+		}
+		part, err := verifDumpElements(m.Storage, he, 0)
+		if err != nil {
+			return nil, err
+		}
+		if part.Size < hkeyElementsPrefixSize {
+			return nil, fmt.Errorf("verif: data slab %s elements size %d is below the prefix size", s.header.slabID, part.Size)
+		}
+		out.Hkeys = append(out.Hkeys, part.Hkeys...)
+		out.Elems = append(out.Elems, part.Elems...)
+		out.Size += part.Size - hkeyElementsPrefixSize
+	}
+	return out, nil
+}
+
+func verifDumpElements(storage SlabStorage, e elements, depth int) (*VerifMapElems, error) {
+	if depth > 16 {
+		return nil, fmt.Errorf("verif: element groups nested deeper than 16")
+	}
+	switch x := e.(type) {
+	case *hkeyElements:
+		if len(x.hkeys) != len(x.elems) {
+			return nil, fmt.Errorf("verif: hkeyElements has %d hkeys and %d elements", len(x.hkeys), len(x.elems))
+		}
+		out := &VerifMapElems{IsHkey: true, Level: x.level, Size: x.size}
+		out.Hkeys = append([]Digest(nil), x.hkeys...)
+		out.Elems = make([]VerifMapElem, 0, len(x.elems))
+		for _, el := range x.elems {
+			d, err := verifDumpElement(storage, el, depth)
+			if err != nil {
+				return nil, err
+			}
+			out.Elems = append(out.Elems, d)
+		}
+		return out, nil
+
+	case *singleElements:
+		out := &VerifMapElems{IsHkey: false, Level: x.level, Size: x.size}
+		out.Elems = make([]VerifMapElem, 0, len(x.elems))
+		for _, el := range x.elems {
+			if el == nil {
+				return nil, fmt.Errorf("verif: singleElements holds a nil element")
+			}
+			out.Elems = append(out.Elems, VerifMapElem{Kind: 0, Key: el.key, Value: el.value, Size: el.Size()})
+		}
+		return out, nil
+
+	default:
+		return nil, fmt.Errorf("verif: unexpected elements type %T", e)
+	}
+}
+
+func verifDumpElement(storage SlabStorage, el element, depth int) (VerifMapElem, error) {
+	switch x := el.(type) {
+	case *singleElement:
+		return VerifMapElem{Kind: 0, Key: x.key, Value: x.value, Size: x.Size()}, nil
+
+	case *inlineCollisionGroup:
+		g, err := verifDumpElements(storage, x.elements, depth+1)
+		if err != nil {
+			return VerifMapElem{}, err
+		}
+		return VerifMapElem{Kind: 1, Size: x.Size(), Group: g}, nil
+
+	case *externalCollisionGroup:
+		slab, err := getMapSlab(storage, x.slabID)
+		if err != nil {
+			return VerifMapElem{}, err
+		}
+		ds, ok := slab.(*MapDataSlab)
+		if !ok {
+			return VerifMapElem{}, fmt.Errorf("verif: external collision group %s is %T, want *MapDataSlab", x.slabID, slab)
+		}
+		if !ds.collisionGroup || !ds.anySize {
+			return VerifMapElem{}, fmt.Errorf("verif: external collision group slab %s has collisionGroup=%t anySize=%t",
+				x.slabID, ds.collisionGroup, ds.anySize)
+		}
+		g, err := verifDumpElements(storage, ds.elements, depth+1)
+		if err != nil {
+			return VerifMapElem{}, err
+		}
+		return VerifMapElem{Kind: 2, Size: x.Size(), SlabID: x.slabID, Group: g}, nil
+
+	default:
+		return VerifMapElem{}, fmt.Errorf("verif: unexpected element type %T", el)
+	}
+}
